@@ -356,3 +356,12 @@ def main():
 
 if __name__ == "__main__":
     main()
+
+# tenth pass
+_amend("C01", "text", "Decides twenty-five structural necessary conditions of JS behaviour preservation (R01.1-R01.25,", "Decides twenty-eight structural necessary conditions of JS behaviour preservation (R01.1-R01.28; R01.28 reports three known findings, the Math.trunc / Math.abs / isNaN rewrites, pinned by the suite;")
+_amend("C03", "text", "Decides sixteen local clauses (R03.1-R03.16 incl. R03.5c-e,", "Decides seventeen local clauses (R03.1-R03.17 incl. R03.5c-f,")
+_amend("C09", "text", "(R09.1, R09.3-R09.17, DESIGN.md §4 C09;", "(R09.1, R09.3-R09.18, DESIGN.md §4 C09;")
+_amend("C10", "text", "(R10.1-R10.12,", "(R10.1-R10.15,")
+_amend("C10", "text", "Decides twelve structural clauses", "Decides fifteen structural clauses")
+_amend("C10", "text", "Absence of panics and linear time in general are NOT decided.", "Temporary files are removed before the function that made them returns; the HTML minifier re-enters itself for iframe content only behind a depth bound; look-ahead loops with a growing index end at the error token. Absence of panics and linear time in general are NOT decided.")
+_amend("C17", "text", "is built from len(value) and Traits&booleanAttr only).", "is built from len(value) and Traits&booleanAttr only), and the token slots that carry the traits to the minifier are fully rewritten by TokenBuffer.read on every path (R17.tokentraits = clause (f) of the token buffer rule): a text, svg or math token never inherits the traits of the tag that used its slot before.")
